@@ -5,9 +5,13 @@ import (
 	"go/constant"
 	"go/token"
 	"go/types"
+	"encoding/hex"
 	"math"
+	"sort"
+	"strconv"
 	"strings"
 	"unicode"
+	"unicode/utf16"
 	"unicode/utf8"
 
 	"golang.org/x/tools/go/ssa"
@@ -41,8 +45,64 @@ type EClosure struct {
 	Free []any
 }
 
+// EIface is an interface value holding a value of a known dynamic type.
+type EIface struct {
+	T types.Type
+	V any
+}
+
+// EMap is a map value; Keys keeps the keys in insertion order (ranging visits them in sorted order).
+type EMap struct {
+	M    map[any]any
+	Keys []any
+}
+
+type mapIter struct {
+	m    *EMap
+	keys []any
+	pos  int
+}
+
+// EBytesReader stands for a *bytes.Reader / *strings.Reader over known bytes.
+type EBytesReader struct {
+	Data []byte
+	Pos  int
+}
+
 // EErr is a non-nil error value (what it says is not modelled).
 type EErr struct{ Msg string }
+
+// the two sentinel errors of package io, as the evaluator sees them
+var (
+	ErrEOF           = &EErr{Msg: "EOF"}
+	ErrUnexpectedEOF = &EErr{Msg: "unexpected EOF"}
+)
+
+func isPointerLike(t types.Type) bool {
+	switch t.Underlying().(type) {
+	case *types.Pointer, *types.Map, *types.Slice, *types.Signature, *types.Chan:
+		return true
+	}
+	return false
+}
+
+func isMapType(t types.Type) bool {
+	_, ok := t.Underlying().(*types.Map)
+	return ok
+}
+
+// mapKey turns an evaluated value into a Go map key (basic values; interface values of basic values).
+func mapKey(v any) (any, bool) {
+	switch k := v.(type) {
+	case int64, string, bool, float64:
+		return k, true
+	case *EIface:
+		if inner, ok := mapKey(k.V); ok {
+			return fmt.Sprintf("%s:%v", k.T, inner), true
+		}
+	}
+	return nil, false
+}
 
 type strIter struct {
 	s   string
@@ -217,6 +277,14 @@ func (ev *Evaluator) callWith(fn *ssa.Function, args []any, free []any, depth in
 					return &EPtr{Get: func() any { return g }, Set: func(any) {}}, nil
 				}
 			}
+			if x.Pkg != nil && x.Pkg.Pkg.Path() == "io" {
+				switch x.Name() {
+				case "EOF":
+					return &EPtr{Get: func() any { return ErrEOF }, Set: func(any) {}}, nil
+				case "ErrUnexpectedEOF":
+					return &EPtr{Get: func() any { return ErrUnexpectedEOF }, Set: func(any) {}}, nil
+				}
+			}
 			return nil, notEval("global %s", x.Name())
 		}
 		r, ok := env[v]
@@ -226,6 +294,7 @@ func (ev *Evaluator) callWith(fn *ssa.Function, args []any, free []any, depth in
 		return r, nil
 	}
 	var prev *ssa.BasicBlock
+	var defers []func() *EvalError
 	b := fn.Blocks[0]
 	for {
 		var next *ssa.BasicBlock
@@ -419,6 +488,30 @@ func (ev *Evaluator) callWith(fn *ssa.Function, args []any, free []any, depth in
 				if e != nil {
 					return nil, e
 				}
+				if _, isMapT := x.X.Type().Underlying().(*types.Map); isMapT {
+					kv, e := val(x.Index)
+					if e != nil {
+						return nil, e
+					}
+					var got any
+					found := false
+					if m, ok := a.(*EMap); ok && m != nil {
+						k, okk := mapKey(kv)
+						if !okk {
+							return nil, notEval("map key %T", kv)
+						}
+						got, found = m.M[k]
+					}
+					if !found {
+						got = ZeroOf(x.X.Type().Underlying().(*types.Map).Elem())
+					}
+					if x.CommaOk {
+						env[x] = ETuple{copyVal(got), found}
+					} else {
+						env[x] = copyVal(got)
+					}
+					break
+				}
 				s, ok := a.(string)
 				if !ok {
 					return nil, notEval("lookup in %T", a)
@@ -528,13 +621,77 @@ func (ev *Evaluator) callWith(fn *ssa.Function, args []any, free []any, depth in
 				if e != nil {
 					return nil, e
 				}
-				env[x] = o // the value itself stands for the interface value; methods on it are not modelled
+				if _, isI := x.X.Type().Underlying().(*types.Interface); isI || o == nil && isPointerLike(x.X.Type()) && false {
+					env[x] = o
+				} else if _, already := o.(*EIface); already {
+					env[x] = o
+				} else {
+					env[x] = &EIface{T: x.X.Type(), V: o}
+				}
 			case *ssa.ChangeInterface:
 				o, e := val(x.X)
 				if e != nil {
 					return nil, e
 				}
 				env[x] = o
+			case *ssa.TypeAssert:
+				o, e := val(x.X)
+				if e != nil {
+					return nil, e
+				}
+				var res any
+				ok := false
+				switch v := o.(type) {
+				case nil:
+				case *EIface:
+					if it, isI := x.AssertedType.Underlying().(*types.Interface); isI {
+						if types.Implements(v.T, it) {
+							res, ok = v, true
+						}
+					} else if types.Identical(v.T, x.AssertedType) {
+						res, ok = v.V, true
+					}
+				default:
+					return nil, notEval("type assertion on %T", o)
+				}
+				if x.CommaOk {
+					if !ok {
+						res = ZeroOf(x.AssertedType)
+					}
+					env[x] = ETuple{res, ok}
+				} else {
+					if !ok {
+						return nil, panics("interface conversion fails")
+					}
+					env[x] = res
+				}
+			case *ssa.MakeMap:
+				env[x] = &EMap{M: map[any]any{}}
+			case *ssa.MapUpdate:
+				mv, e := val(x.Map)
+				if e != nil {
+					return nil, e
+				}
+				kv, e := val(x.Key)
+				if e != nil {
+					return nil, e
+				}
+				vv, e := val(x.Value)
+				if e != nil {
+					return nil, e
+				}
+				m, ok := mv.(*EMap)
+				if !ok || m == nil {
+					return nil, panics("assignment to entry in nil map")
+				}
+				k, okk := mapKey(kv)
+				if !okk {
+					return nil, notEval("map key %T", kv)
+				}
+				if _, had := m.M[k]; !had {
+					m.Keys = append(m.Keys, k)
+				}
+				m.M[k] = copyVal(vv)
 			case *ssa.MakeClosure:
 				cl := &EClosure{Fn: x.Fn.(*ssa.Function)}
 				for _, b := range x.Bindings {
@@ -550,6 +707,15 @@ func (ev *Evaluator) callWith(fn *ssa.Function, args []any, free []any, depth in
 				if e != nil {
 					return nil, e
 				}
+				if m, isM := o.(*EMap); isM || (o == nil && isMapType(x.X.Type())) {
+					it := &mapIter{m: m}
+					if m != nil {
+						it.keys = append(it.keys, m.Keys...)
+						sort.SliceStable(it.keys, func(i, j int) bool { return fmt.Sprint(it.keys[i]) < fmt.Sprint(it.keys[j]) })
+					}
+					env[x] = it
+					break
+				}
 				str, ok := o.(string)
 				if !ok {
 					return nil, notEval("range over %T", o)
@@ -559,6 +725,19 @@ func (ev *Evaluator) callWith(fn *ssa.Function, args []any, free []any, depth in
 				o, e := val(x.Iter)
 				if e != nil {
 					return nil, e
+				}
+				if mi, isM := o.(*mapIter); isM {
+					for mi.pos < len(mi.keys) {
+						k := mi.keys[mi.pos]
+						mi.pos++
+						if v, still := mi.m.M[k]; still {
+							env[x] = ETuple{true, k, copyVal(v)}
+							goto nextDone
+						}
+					}
+					env[x] = ETuple{false, nil, nil}
+				nextDone:
+					break
 				}
 				it, ok := o.(*strIter)
 				if !ok || !x.IsString {
@@ -571,8 +750,49 @@ func (ev *Evaluator) callWith(fn *ssa.Function, args []any, free []any, depth in
 					env[x] = ETuple{true, int64(it.pos), int64(r)}
 					it.pos += w
 				}
-			case *ssa.Defer, *ssa.RunDefers:
-				// deferred calls (Close) have no part in the values that are compared
+			case *ssa.Defer:
+				// arguments are evaluated now, the call is made when the function returns
+				cc := x.Call
+				frozen := map[ssa.Value]any{}
+				okAll := true
+				for _, a := range cc.Args {
+					v, e := val(a)
+					if e != nil {
+						okAll = false
+						break
+					}
+					frozen[a] = v
+				}
+				var fv any
+				if okAll && cc.StaticCallee() == nil && !cc.IsInvoke() {
+					v, e := val(cc.Value)
+					if e != nil {
+						okAll = false
+					}
+					fv = v
+				}
+				if okAll {
+					ccCopy := cc
+					defers = append(defers, func() *EvalError {
+						_, e := ev.callCommon(&ccCopy, func(v ssa.Value) (any, *EvalError) {
+							if r, ok := frozen[v]; ok {
+								return r, nil
+							}
+							if v == ccCopy.Value && fv != nil {
+								return fv, nil
+							}
+							return val(v)
+						}, depth)
+						return e
+					})
+				}
+			case *ssa.RunDefers:
+				for i := len(defers) - 1; i >= 0; i-- {
+					if e := defers[i](); e != nil && e.Panic {
+						return nil, e
+					}
+				}
+				defers = nil
 			case *ssa.Extract:
 				o, e := val(x.Tuple)
 				if e != nil {
@@ -801,6 +1021,12 @@ func binop(x *ssa.BinOp, l, r any) (any, *EvalError) {
 		}
 	case nil:
 		rn := r == nil || isEmptyNilSlice(r)
+		if p, ok := r.(*EPtr); ok && p == nil {
+			rn = true
+		}
+		if m, ok := r.(*EMap); ok && m == nil {
+			rn = true
+		}
 		switch x.Op {
 		case token.EQL:
 			return rn, nil
@@ -817,6 +1043,29 @@ func binop(x *ssa.BinOp, l, r any) (any, *EvalError) {
 				return a.L != nil, nil
 			}
 		}
+	case *EIface:
+		eq := false
+		if b, ok := r.(*EIface); ok {
+			eq = types.Identical(a.T, b.T) && fmt.Sprint(a.V) == fmt.Sprint(b.V)
+			if _, isS := a.V.(*EStruct); isS {
+				return nil, notEval("comparison of struct values in interfaces")
+			}
+		}
+		switch x.Op {
+		case token.EQL:
+			return eq, nil
+		case token.NEQ:
+			return !eq, nil
+		}
+	case *EMap:
+		if r == nil {
+			switch x.Op {
+			case token.EQL:
+				return a == nil, nil
+			case token.NEQ:
+				return a != nil, nil
+			}
+		}
 	case *EErr:
 		same := false
 		if b, ok := r.(*EErr); ok {
@@ -829,11 +1078,17 @@ func binop(x *ssa.BinOp, l, r any) (any, *EvalError) {
 			return !same, nil
 		}
 	case *EPtr:
+		same := false
+		if b, ok := r.(*EPtr); ok {
+			same = a == b
+		} else if r == nil {
+			same = a == nil
+		}
 		switch x.Op {
 		case token.EQL:
-			return r == nil && a == nil, nil
+			return same, nil
 		case token.NEQ:
-			return !(r == nil && a == nil), nil
+			return !same, nil
 		}
 	}
 	return nil, notEval("%T %s %T", l, x.Op, r)
@@ -911,15 +1166,19 @@ func convert(x *ssa.Convert, o any) (any, *EvalError) {
 }
 
 func (ev *Evaluator) call(x *ssa.Call, val func(ssa.Value) (any, *EvalError), depth int) (any, *EvalError) {
+	return ev.callCommon(&x.Call, val, depth)
+}
+
+func (ev *Evaluator) callCommon(cc *ssa.CallCommon, val func(ssa.Value) (any, *EvalError), depth int) (any, *EvalError) {
 	var args []any
-	for _, a := range x.Call.Args {
+	for _, a := range cc.Args {
 		v, e := val(a)
 		if e != nil {
 			return nil, e
 		}
 		args = append(args, v)
 	}
-	if bi, ok := x.Call.Value.(*ssa.Builtin); ok {
+	if bi, ok := cc.Value.(*ssa.Builtin); ok {
 		switch bi.Name() {
 		case "len", "cap":
 			switch s := args[0].(type) {
@@ -930,9 +1189,42 @@ func (ev *Evaluator) call(x *ssa.Call, val func(ssa.Value) (any, *EvalError), de
 					return int64(cap(s.L)), nil
 				}
 				return int64(len(s.L)), nil
+			case *EMap:
+				return int64(len(s.M)), nil
 			case nil:
 				return int64(0), nil
 			}
+		case "copy":
+			dst, ok := args[0].(*ESlice)
+			if !ok {
+				return int64(0), nil
+			}
+			n := 0
+			switch src := args[1].(type) {
+			case *ESlice:
+				// through a temporary, as copy does for overlapping slices
+				tmp := make([]any, 0, len(src.L))
+				for _, l := range src.L {
+					tmp = append(tmp, copyVal(l.V))
+				}
+				for i := 0; i < len(dst.L) && i < len(tmp); i++ {
+					dst.L[i].V = tmp[i]
+					n++
+				}
+			case string:
+				for i := 0; i < len(dst.L) && i < len(src); i++ {
+					dst.L[i].V = int64(src[i])
+					n++
+				}
+			}
+			return int64(n), nil
+		case "delete":
+			if m, ok := args[0].(*EMap); ok && m != nil {
+				if k, okk := mapKey(args[1]); okk {
+					delete(m.M, k)
+				}
+			}
+			return nil, nil
 		case "append":
 			dst, ok := args[0].(*ESlice)
 			if !ok {
@@ -975,21 +1267,36 @@ func (ev *Evaluator) call(x *ssa.Call, val func(ssa.Value) (any, *EvalError), de
 		}
 		return nil, notEval("builtin %s", bi.Name())
 	}
-	if x.Call.IsInvoke() {
-		if ev.Invoke != nil {
-			recv, e := val(x.Call.Value)
-			if e != nil {
-				return nil, e
+	if cc.IsInvoke() {
+		recv, e := val(cc.Value)
+		if e != nil {
+			return nil, e
+		}
+		if ifc, ok := recv.(*EIface); ok {
+			prog := cc.Value.Parent().Prog
+			sel := prog.MethodSets.MethodSet(ifc.T).Lookup(cc.Method.Pkg(), cc.Method.Name())
+			if sel == nil {
+				return nil, notEval("method %s not found on %s", cc.Method.Name(), ifc.T)
 			}
-			if r, e, ok := ev.Invoke(x.Call.Method.Name(), recv, args); ok {
+			m := prog.MethodValue(sel)
+			if m == nil {
+				return nil, notEval("method %s of %s has no body", cc.Method.Name(), ifc.T)
+			}
+			return ev.callFunction(m, append([]any{ifc.V}, args...), depth)
+		}
+		if recv == nil {
+			return nil, panics("method call on a nil interface")
+		}
+		if ev.Invoke != nil {
+			if r, e, ok := ev.Invoke(cc.Method.Name(), recv, args); ok {
 				return r, e
 			}
 		}
-		return nil, notEval("interface call %s", x.Call.Method.Name())
+		return nil, notEval("interface call %s", cc.Method.Name())
 	}
-	g := x.Call.StaticCallee()
+	g := cc.StaticCallee()
 	if g == nil {
-		fv, e := val(x.Call.Value)
+		fv, e := val(cc.Value)
 		if e != nil {
 			return nil, e
 		}
@@ -1003,7 +1310,7 @@ func (ev *Evaluator) call(x *ssa.Call, val func(ssa.Value) (any, *EvalError), de
 		}
 		return nil, notEval("dynamic call")
 	}
-	if mc, ok := x.Call.Value.(*ssa.MakeClosure); ok {
+	if mc, ok := cc.Value.(*ssa.MakeClosure); ok {
 		cv, e := val(mc)
 		if e != nil {
 			return nil, e
@@ -1012,8 +1319,20 @@ func (ev *Evaluator) call(x *ssa.Call, val func(ssa.Value) (any, *EvalError), de
 			return ev.callWith(cl.Fn, args, cl.Free, depth+1)
 		}
 	}
+	return ev.callFunction(g, args, depth)
+}
+
+// callFunction calls a function by its SSA value: a body of the module (or a synthetic wrapper) is evaluated,
+// anything else is answered by the hooks and the library table.
+func (ev *Evaluator) callFunction(g *ssa.Function, args []any, depth int) (any, *EvalError) {
 	if g.Blocks != nil && (InModule(g) || g.Pkg == nil) {
 		return ev.Call(g, args, depth+1)
+	}
+	// library functions see the values interface values hold
+	for i, a := range args {
+		if ifc, ok := a.(*EIface); ok {
+			args[i] = ifc.V
+		}
 	}
 	if ev.External != nil {
 		if r, e, ok := ev.External(g, args); ok {
@@ -1086,6 +1405,184 @@ func (ev *Evaluator) call(x *ssa.Call, val func(ssa.Value) (any, *EvalError), de
 	switch FuncName(g) {
 	case "fmt.Errorf", "errors.New":
 		return &EErr{}, nil
+	case "bytes.NewReader":
+		if sl, ok := args[0].(*ESlice); ok {
+			var data []byte
+			for _, l := range sl.L {
+				b, _ := l.V.(int64)
+				data = append(data, byte(b))
+			}
+			return &EBytesReader{Data: data}, nil
+		}
+	case "strings.NewReader":
+		if sv, ok := args[0].(string); ok {
+			return &EBytesReader{Data: []byte(sv)}, nil
+		}
+	case "bytes.(*Reader).Len", "strings.(*Reader).Len":
+		if r, ok := args[0].(*EBytesReader); ok {
+			return int64(len(r.Data) - r.Pos), nil
+		}
+	case "bytes.(*Reader).ReadByte", "strings.(*Reader).ReadByte":
+		if r, ok := args[0].(*EBytesReader); ok {
+			if r.Pos >= len(r.Data) {
+				return ETuple{int64(0), ErrEOF}, nil
+			}
+			r.Pos++
+			return ETuple{int64(r.Data[r.Pos-1]), nil}, nil
+		}
+	case "bytes.(*Reader).UnreadByte", "strings.(*Reader).UnreadByte":
+		if r, ok := args[0].(*EBytesReader); ok {
+			if r.Pos > 0 {
+				r.Pos--
+			}
+			return nil, nil
+		}
+	case "bufio.NewReader", "bufio.NewReaderSize":
+		if r, ok := args[0].(*EBytesReader); ok {
+			return r, nil
+		}
+	case "bufio.(*Reader).ReadByte":
+		if r, ok := args[0].(*EBytesReader); ok {
+			if r.Pos >= len(r.Data) {
+				return ETuple{int64(0), ErrEOF}, nil
+			}
+			r.Pos++
+			return ETuple{int64(r.Data[r.Pos-1]), nil}, nil
+		}
+	case "bufio.(*Reader).UnreadByte":
+		if r, ok := args[0].(*EBytesReader); ok {
+			if r.Pos > 0 {
+				r.Pos--
+			}
+			return nil, nil
+		}
+	case "bufio.(*Reader).Peek":
+		if r, ok := args[0].(*EBytesReader); ok {
+			n, _ := args[1].(int64)
+			end := r.Pos + int(n)
+			if n < 0 {
+				return ETuple{&ESlice{}, &EErr{Msg: "negative count"}}, nil
+			}
+			if end > len(r.Data) {
+				return ETuple{BytesOf(r.Data[r.Pos:]), ErrEOF}, nil
+			}
+			return ETuple{BytesOf(r.Data[r.Pos:end]), nil}, nil
+		}
+	case "bufio.(*Reader).Discard":
+		if r, ok := args[0].(*EBytesReader); ok {
+			n, _ := args[1].(int64)
+			if r.Pos+int(n) > len(r.Data) {
+				k := len(r.Data) - r.Pos
+				r.Pos = len(r.Data)
+				return ETuple{int64(k), ErrEOF}, nil
+			}
+			r.Pos += int(n)
+			return ETuple{n, nil}, nil
+		}
+	case "bufio.(*Reader).Buffered":
+		if r, ok := args[0].(*EBytesReader); ok {
+			return int64(len(r.Data) - r.Pos), nil
+		}
+	case "strconv.ParseFloat":
+		if sv, ok := args[0].(string); ok {
+			bits, _ := args[1].(int64)
+			f, err := strconv.ParseFloat(sv, int(bits))
+			if err != nil {
+				return ETuple{f, &EErr{Msg: err.Error()}}, nil
+			}
+			return ETuple{f, nil}, nil
+		}
+	case "fmt.Sprintf":
+		// basic values only (numbers, strings, booleans); a value with a String method would print differently
+		if format, ok := args[0].(string); ok {
+			var goArgs []any
+			if sl, ok := args[1].(*ESlice); ok {
+				for _, l := range sl.L {
+					v := l.V
+					if ifc, ok := v.(*EIface); ok {
+						v = ifc.V
+						if bt, isB := ifc.T.Underlying().(*types.Basic); isB && bt.Kind() == types.Uint8 {
+							if iv, ok := v.(int64); ok {
+								v = byte(iv)
+							}
+						}
+						if bt, isB := ifc.T.Underlying().(*types.Basic); isB && bt.Kind() == types.Int32 {
+							if iv, ok := v.(int64); ok {
+								v = rune(iv)
+							}
+						}
+					}
+					switch v.(type) {
+					case int64, string, bool, float64, byte, rune, nil:
+					default:
+						v = "?"
+					}
+					goArgs = append(goArgs, v)
+				}
+			}
+			return fmt.Sprintf(format, goArgs...), nil
+		}
+	case "encoding/hex.DecodeString":
+		if sv, ok := args[0].(string); ok {
+			b, err := hex.DecodeString(sv)
+			if err != nil {
+				return ETuple{&ESlice{}, &EErr{Msg: err.Error()}}, nil
+			}
+			return ETuple{BytesOf(b), nil}, nil
+		}
+	case "unicode/utf16.Decode":
+		if sl, ok := args[0].(*ESlice); ok {
+			var units []uint16
+			for _, l := range sl.L {
+				u, _ := l.V.(int64)
+				units = append(units, uint16(u))
+			}
+			out := &ESlice{}
+			for _, r := range utf16.Decode(units) {
+				out.L = append(out.L, &ELoc{int64(r)})
+			}
+			return out, nil
+		}
+	case "unicode/utf16.DecodeRune":
+		a, ok1 := args[0].(int64)
+		b, ok2 := args[1].(int64)
+		if ok1 && ok2 {
+			return int64(utf16.DecodeRune(rune(a), rune(b))), nil
+		}
+	case "unicode/utf16.IsSurrogate":
+		if a, ok := args[0].(int64); ok {
+			return utf16.IsSurrogate(rune(a)), nil
+		}
+	case "strconv.ParseUint", "strconv.ParseInt":
+		sv, ok0 := args[0].(string)
+		base, ok1 := args[1].(int64)
+		bits, ok2 := args[2].(int64)
+		if ok0 && ok1 && ok2 {
+			if FuncName(g) == "strconv.ParseUint" {
+				v, err := strconv.ParseUint(sv, int(base), int(bits))
+				if err != nil {
+					return ETuple{int64(v), &EErr{Msg: err.Error()}}, nil
+				}
+				return ETuple{int64(v), nil}, nil
+			}
+			v, err := strconv.ParseInt(sv, int(base), int(bits))
+			if err != nil {
+				return ETuple{v, &EErr{Msg: err.Error()}}, nil
+			}
+			return ETuple{v, nil}, nil
+		}
+	case "strconv.Atoi":
+		if sv, ok := args[0].(string); ok {
+			v, err := strconv.Atoi(sv)
+			if err != nil {
+				return ETuple{int64(v), &EErr{Msg: err.Error()}}, nil
+			}
+			return ETuple{int64(v), nil}, nil
+		}
+	case "strconv.Itoa":
+		if v, ok := args[0].(int64); ok {
+			return strconv.Itoa(int(v)), nil
+		}
 	}
 	if r, e, ok := libraryCall(FuncName(g), args); ok {
 		return r, e
